@@ -10,6 +10,7 @@ import (
 
 	"verif.local/engine/explore"
 	"verif.local/engine/vnet"
+	"verif.local/engine/vrand"
 	"verif.local/engine/vsched"
 	"verif.local/engine/vsync"
 )
@@ -177,11 +178,117 @@ func c14ConcScenarios() []*explore.Scenario {
 			})
 			d.finish(2)
 		}},
+		// Send path: two threads write one long-header packet each through ONE conn to one peer
+		// (quic-go's connections share the server's PacketConn, each with its own send loop); the
+		// schedules let writer 2 run between two chunks of writer 1. Everything on the wire is then
+		// delivered to one receiver from one source, in wire order and reversed: both packets come
+		// out byte-identical, once, and nothing else. Chunk-count draws owned per writer: 2+2 and 2+3.
+		// Added after the independently seeded change C14-8 (writeFragmented only peeked the next
+		// message id and advanced the counter after its last chunk, so overlapping writers - and the
+		// packet after a half-sent one, see frames/refused-write - shared one message id).
+		c14TwoWriters("conc-two-writers-chunks-2+2", 2, 2, q, th),
+		c14TwoWriters("conc-two-writers-chunks-2+3", 2, 3, q, th),
 	}
 }
 
 func TestVerifC14Conc(t *testing.T) {
 	explore.Main(t, "C14", c14ConcScenarios())
+}
+
+// c14TwoWriters: see the comment in c14ConcScenarios. ccA/ccB are the chunk counts the two
+// writers draw (crypto/rand owned per thread; pad draws and padding bytes zero).
+func c14TwoWriters(name string, ccA, ccB int, q, th explore.Bounds) *explore.Scenario {
+	return &explore.Scenario{Name: name, Quick: q, Thorough: th, Body: func(e *vsched.Exec) {
+		out := vnet.NewPacketConn("out", 8)
+		g := newGeckoPacketConn(out, geckoDefaultMinPacket, geckoDefaultMaxPacket)
+		g.msgID.Store(254)
+		dst := c14Addr("peer")
+		pkts := [2][]byte{c14Content(41, 1, true), c14Content(23, 2, true)}
+		ccOf := map[int]int{}  // thread id -> chunk count it draws
+		drawn := map[int]int{} // thread id -> crypto/rand bytes drawn so far
+		vrand.SetSource(e, func(e *vsched.Exec, tag string, bound int64) int64 {
+			if tag != "crypto/rand.Read" || bound != 256 {
+				return -1
+			}
+			id := e.Current().ID
+			i := drawn[id]
+			drawn[id]++
+			if i == 3 { // low byte of the first 4-byte draw: the chunk count minus 2
+				return int64(ccOf[id] - 2)
+			}
+			return 0
+		})
+		var wg vsync.WaitGroup
+		for w, cc := range []int{ccA, ccB} {
+			wg.Add(1)
+			vsched.Go(func() {
+				defer wg.Done()
+				ccOf[e.Current().ID] = cc
+				if n, err := g.WriteTo(pkts[w], dst); err != nil || n != len(pkts[w]) {
+					e.Fail("writer %d: WriteTo(%d bytes) = %d, %v", w+1, len(pkts[w]), n, err)
+				}
+			})
+		}
+		wg.Wait()
+		wire := append([]vnet.Packet(nil), out.Sent...)
+		if err := g.Close(); err != nil {
+			e.Fail("Close: %v", err)
+		}
+		if len(wire) != ccA+ccB {
+			e.Logf("harness note: %d datagrams on the wire for chunk-count draws %d and %d", len(wire), ccA, ccB)
+		}
+		sig := ""
+		for _, w := range wire {
+			if rf, cl := c14ParseFrame(w.Data); cl == "" {
+				sig += fmt.Sprintf(" %d/%d", rf.idx, rf.total)
+			} else {
+				e.Fail("emitted %s", cl)
+			}
+		}
+		e.Logf("wire:%s", sig)
+		rp := vnet.NewPacketConn("rplain", 9)
+		rg := newGeckoPacketConn(rp, geckoDefaultMinPacket, geckoDefaultMaxPacket)
+		buf := make([]byte, 4096)
+		for k, what := range []string{"wire order", "reversed wire order"} {
+			src := c14Addr("tw" + fmt.Sprint(k))
+			for i := range wire {
+				j := i
+				if k == 1 {
+					j = len(wire) - 1 - i
+				}
+				rp.Inject(wire[j].Data, src)
+			}
+			got, cl := c14Drain(rg, rp, []byte{0x00}, buf)
+			if cl != "" {
+				e.Fail("%s", cl)
+			}
+			seen := [2]bool{}
+			for _, x := range got {
+				hit := false
+				for m := range pkts {
+					if !seen[m] && x.src == src.String() && bytes.Equal(x.data, pkts[m]) {
+						seen[m], hit = true, true
+						break
+					}
+				}
+				if !hit {
+					e.Fail("two writers on one conn: receiver returned %d bytes %s which neither writer wrote (%s)", len(x.data), c14Hex(x.data), what)
+				}
+			}
+			for m := range pkts {
+				if !seen[m] {
+					e.Fail("two writers on one conn: packet of writer %d was not delivered although its WriteTo succeeded (%s)", m+1, what)
+				}
+			}
+		}
+		if cl := c14Census(rg, geckoMaxPerSource, geckoMaxReassembly); cl != "" {
+			e.Fail("receiver state: %s", cl)
+		}
+		if err := rg.Close(); err != nil {
+			e.Fail("Close: %v", err)
+		}
+		e.WaitIdle()
+	}}
 }
 
 var _ = fmt.Sprint
